@@ -161,6 +161,16 @@ func Index(opts Options, bopts index.Options) error {
 		}
 	}
 
+	if builder == nil {
+		// The archive has no regular member (it is empty or holds only
+		// directories and links), so no builder was ever created. Index the
+		// empty repository instead of dereferencing nil.
+		var err error
+		if builder, err = index.NewBuilder(bopts); err != nil {
+			return err
+		}
+	}
+
 	return builder.Finish()
 }
 
